@@ -93,6 +93,10 @@
    * outbuf_high_watermark is assumed larger than any amount of pending output
      (default 16 MiB): _flush_outbufs_below_high_watermark reduces to its
      first test (a read of total_outbufs_len).  Back-pressure is property C12.
+   * outbuf.get(sendbuf_len) returns a non-empty prefix of the first buffer,
+     of a length the environment chooses (ESend len n): OverflowableBuffer
+     returns everything while it is in its bytes stage and at most sendbuf_len
+     bytes afterwards (C17); no theorem depends on the length.
    * The socket never fails: send() accepts 0..len bytes (0 = EWOULDBLOCK),
      recv() delivers data or EOF.  errno paths are property C13.
      maintenance() and cancel() (C18, shutdown) are not modelled.
@@ -103,7 +107,7 @@
      IHead id ; IRest id); a recv() delivers k >= 0 whole items and possibly
      an incomplete piece of the next one.
    Ghost fields (never read by the program): arrivals, starts, execs, wire,
-   produced, discarded, units, infl, wsc. *)
+   produced, discarded, units, infl, wsc, closing, popped. *)
 From Coq Require Import List Arith Bool ZArith Lia.
 Import ListNotations.
 Open Scope nat_scope.
@@ -129,7 +133,7 @@ Inductive label :=
 | LR (a : attr) | LW (a : attr)
 | LSend (len n : nat) | LRecv | LSelect | LTrig.
 
-Inductive env := ENone | ESel (rs ws : bool) | ERecv (k : nat) (frag : bool) | EEof | ESend (n : nat).
+Inductive env := ENone | ESel (rs ws : bool) | ERecv (k : nat) (frag : bool) | EEof | ESend (len n : nat).
 Inductive choice := CIo (e : env) | CWk (i : nat) (e : env).
 
 Inductive cnt3 := CZero | CPos | CHw.
@@ -137,7 +141,6 @@ Inductive cnt3 := CZero | CPos | CHw.
 Record params := {
   p_look : nat;          (* channel_request_lookahead *)
   p_sb : Z;              (* send_bytes *)
-  p_ch : nat;            (* sendbuf_len: the argument of outbuf.get *)
   p_clen : nat;          (* length of b"HTTP/1.1 100 Continue\r\n\r\n" *)
   p_nw : nat;            (* number of pool workers *)
   p_script : list rdesc  (* the requests the client sends, in order *)
@@ -219,7 +222,9 @@ Record shared := {
   discarded : list tok;               (* pending tokens dropped by handle_close *)
   units : list unit_;                 (* what was produced, by unit: response (so far) / interim *)
   infl : nat;                         (* tokens accepted by send() and not yet skip()ped *)
-  wsc : bool                          (* a worker has entered send_continue() (class of F18) *)
+  wsc : bool;                         (* a worker has entered send_continue() (class of F18) *)
+  closing : bool;                     (* service() took its close branch (close_when_flushed was set) *)
+  popped : list nat                   (* ids removed by requests.pop(0), in order *)
 }.
 
 Record state := { sh : shared; io : iost; wk : nat -> wkst }.
@@ -275,29 +280,31 @@ Definition holds (l : option tid) (t : tid) : bool :=
 Definition free (l : option tid) : bool := match l with None => true | Some _ => false end.
 
 (* field setters (Coq 8.16 has no record update syntax) *)
-Definition set_requests (s : shared) v := {| requests := v; pst := pst s; sent_continue := sent_continue s; will_close := will_close s; cwf := cwf s; connected := connected s; total := total s; obs := obs s; cnt := cnt s; rlock := rlock s; olock := olock s; dlock := dlock s; queue := queue s; qwait := qwait s; qnotified := qnotified s; nxt := nxt s; arrivals := arrivals s; starts := starts s; execs := execs s; wire := wire s; produced := produced s; discarded := discarded s; units := units s; infl := infl s; wsc := wsc s |}.
-Definition set_pst (s : shared) v := {| requests := requests s; pst := v; sent_continue := sent_continue s; will_close := will_close s; cwf := cwf s; connected := connected s; total := total s; obs := obs s; cnt := cnt s; rlock := rlock s; olock := olock s; dlock := dlock s; queue := queue s; qwait := qwait s; qnotified := qnotified s; nxt := nxt s; arrivals := arrivals s; starts := starts s; execs := execs s; wire := wire s; produced := produced s; discarded := discarded s; units := units s; infl := infl s; wsc := wsc s |}.
-Definition set_sent_continue (s : shared) v := {| requests := requests s; pst := pst s; sent_continue := v; will_close := will_close s; cwf := cwf s; connected := connected s; total := total s; obs := obs s; cnt := cnt s; rlock := rlock s; olock := olock s; dlock := dlock s; queue := queue s; qwait := qwait s; qnotified := qnotified s; nxt := nxt s; arrivals := arrivals s; starts := starts s; execs := execs s; wire := wire s; produced := produced s; discarded := discarded s; units := units s; infl := infl s; wsc := wsc s |}.
-Definition set_will_close (s : shared) v := {| requests := requests s; pst := pst s; sent_continue := sent_continue s; will_close := v; cwf := cwf s; connected := connected s; total := total s; obs := obs s; cnt := cnt s; rlock := rlock s; olock := olock s; dlock := dlock s; queue := queue s; qwait := qwait s; qnotified := qnotified s; nxt := nxt s; arrivals := arrivals s; starts := starts s; execs := execs s; wire := wire s; produced := produced s; discarded := discarded s; units := units s; infl := infl s; wsc := wsc s |}.
-Definition set_cwf (s : shared) v := {| requests := requests s; pst := pst s; sent_continue := sent_continue s; will_close := will_close s; cwf := v; connected := connected s; total := total s; obs := obs s; cnt := cnt s; rlock := rlock s; olock := olock s; dlock := dlock s; queue := queue s; qwait := qwait s; qnotified := qnotified s; nxt := nxt s; arrivals := arrivals s; starts := starts s; execs := execs s; wire := wire s; produced := produced s; discarded := discarded s; units := units s; infl := infl s; wsc := wsc s |}.
-Definition set_connected (s : shared) v := {| requests := requests s; pst := pst s; sent_continue := sent_continue s; will_close := will_close s; cwf := cwf s; connected := v; total := total s; obs := obs s; cnt := cnt s; rlock := rlock s; olock := olock s; dlock := dlock s; queue := queue s; qwait := qwait s; qnotified := qnotified s; nxt := nxt s; arrivals := arrivals s; starts := starts s; execs := execs s; wire := wire s; produced := produced s; discarded := discarded s; units := units s; infl := infl s; wsc := wsc s |}.
-Definition set_total (s : shared) v := {| requests := requests s; pst := pst s; sent_continue := sent_continue s; will_close := will_close s; cwf := cwf s; connected := connected s; total := v; obs := obs s; cnt := cnt s; rlock := rlock s; olock := olock s; dlock := dlock s; queue := queue s; qwait := qwait s; qnotified := qnotified s; nxt := nxt s; arrivals := arrivals s; starts := starts s; execs := execs s; wire := wire s; produced := produced s; discarded := discarded s; units := units s; infl := infl s; wsc := wsc s |}.
-Definition set_obs (s : shared) v := {| requests := requests s; pst := pst s; sent_continue := sent_continue s; will_close := will_close s; cwf := cwf s; connected := connected s; total := total s; obs := v; cnt := cnt s; rlock := rlock s; olock := olock s; dlock := dlock s; queue := queue s; qwait := qwait s; qnotified := qnotified s; nxt := nxt s; arrivals := arrivals s; starts := starts s; execs := execs s; wire := wire s; produced := produced s; discarded := discarded s; units := units s; infl := infl s; wsc := wsc s |}.
-Definition set_cnt (s : shared) v := {| requests := requests s; pst := pst s; sent_continue := sent_continue s; will_close := will_close s; cwf := cwf s; connected := connected s; total := total s; obs := obs s; cnt := v; rlock := rlock s; olock := olock s; dlock := dlock s; queue := queue s; qwait := qwait s; qnotified := qnotified s; nxt := nxt s; arrivals := arrivals s; starts := starts s; execs := execs s; wire := wire s; produced := produced s; discarded := discarded s; units := units s; infl := infl s; wsc := wsc s |}.
-Definition set_rlock (s : shared) v := {| requests := requests s; pst := pst s; sent_continue := sent_continue s; will_close := will_close s; cwf := cwf s; connected := connected s; total := total s; obs := obs s; cnt := cnt s; rlock := v; olock := olock s; dlock := dlock s; queue := queue s; qwait := qwait s; qnotified := qnotified s; nxt := nxt s; arrivals := arrivals s; starts := starts s; execs := execs s; wire := wire s; produced := produced s; discarded := discarded s; units := units s; infl := infl s; wsc := wsc s |}.
-Definition set_olock (s : shared) v := {| requests := requests s; pst := pst s; sent_continue := sent_continue s; will_close := will_close s; cwf := cwf s; connected := connected s; total := total s; obs := obs s; cnt := cnt s; rlock := rlock s; olock := v; dlock := dlock s; queue := queue s; qwait := qwait s; qnotified := qnotified s; nxt := nxt s; arrivals := arrivals s; starts := starts s; execs := execs s; wire := wire s; produced := produced s; discarded := discarded s; units := units s; infl := infl s; wsc := wsc s |}.
-Definition set_dlock (s : shared) v := {| requests := requests s; pst := pst s; sent_continue := sent_continue s; will_close := will_close s; cwf := cwf s; connected := connected s; total := total s; obs := obs s; cnt := cnt s; rlock := rlock s; olock := olock s; dlock := v; queue := queue s; qwait := qwait s; qnotified := qnotified s; nxt := nxt s; arrivals := arrivals s; starts := starts s; execs := execs s; wire := wire s; produced := produced s; discarded := discarded s; units := units s; infl := infl s; wsc := wsc s |}.
-Definition set_queue (s : shared) v := {| requests := requests s; pst := pst s; sent_continue := sent_continue s; will_close := will_close s; cwf := cwf s; connected := connected s; total := total s; obs := obs s; cnt := cnt s; rlock := rlock s; olock := olock s; dlock := dlock s; queue := v; qwait := qwait s; qnotified := qnotified s; nxt := nxt s; arrivals := arrivals s; starts := starts s; execs := execs s; wire := wire s; produced := produced s; discarded := discarded s; units := units s; infl := infl s; wsc := wsc s |}.
-Definition set_qw (s : shared) v n := {| requests := requests s; pst := pst s; sent_continue := sent_continue s; will_close := will_close s; cwf := cwf s; connected := connected s; total := total s; obs := obs s; cnt := cnt s; rlock := rlock s; olock := olock s; dlock := dlock s; queue := queue s; qwait := v; qnotified := n; nxt := nxt s; arrivals := arrivals s; starts := starts s; execs := execs s; wire := wire s; produced := produced s; discarded := discarded s; units := units s; infl := infl s; wsc := wsc s |}.
-Definition set_nxt (s : shared) v := {| requests := requests s; pst := pst s; sent_continue := sent_continue s; will_close := will_close s; cwf := cwf s; connected := connected s; total := total s; obs := obs s; cnt := cnt s; rlock := rlock s; olock := olock s; dlock := dlock s; queue := queue s; qwait := qwait s; qnotified := qnotified s; nxt := v; arrivals := arrivals s; starts := starts s; execs := execs s; wire := wire s; produced := produced s; discarded := discarded s; units := units s; infl := infl s; wsc := wsc s |}.
-Definition set_arrivals (s : shared) v := {| requests := requests s; pst := pst s; sent_continue := sent_continue s; will_close := will_close s; cwf := cwf s; connected := connected s; total := total s; obs := obs s; cnt := cnt s; rlock := rlock s; olock := olock s; dlock := dlock s; queue := queue s; qwait := qwait s; qnotified := qnotified s; nxt := nxt s; arrivals := v; starts := starts s; execs := execs s; wire := wire s; produced := produced s; discarded := discarded s; units := units s; infl := infl s; wsc := wsc s |}.
-Definition set_starts (s : shared) v := {| requests := requests s; pst := pst s; sent_continue := sent_continue s; will_close := will_close s; cwf := cwf s; connected := connected s; total := total s; obs := obs s; cnt := cnt s; rlock := rlock s; olock := olock s; dlock := dlock s; queue := queue s; qwait := qwait s; qnotified := qnotified s; nxt := nxt s; arrivals := arrivals s; starts := v; execs := execs s; wire := wire s; produced := produced s; discarded := discarded s; units := units s; infl := infl s; wsc := wsc s |}.
-Definition set_execs (s : shared) v := {| requests := requests s; pst := pst s; sent_continue := sent_continue s; will_close := will_close s; cwf := cwf s; connected := connected s; total := total s; obs := obs s; cnt := cnt s; rlock := rlock s; olock := olock s; dlock := dlock s; queue := queue s; qwait := qwait s; qnotified := qnotified s; nxt := nxt s; arrivals := arrivals s; starts := starts s; execs := v; wire := wire s; produced := produced s; discarded := discarded s; units := units s; infl := infl s; wsc := wsc s |}.
-Definition set_wire (s : shared) v i := {| requests := requests s; pst := pst s; sent_continue := sent_continue s; will_close := will_close s; cwf := cwf s; connected := connected s; total := total s; obs := obs s; cnt := cnt s; rlock := rlock s; olock := olock s; dlock := dlock s; queue := queue s; qwait := qwait s; qnotified := qnotified s; nxt := nxt s; arrivals := arrivals s; starts := starts s; execs := execs s; wire := v; produced := produced s; discarded := discarded s; units := units s; infl := i; wsc := wsc s |}.
-Definition set_infl (s : shared) i := {| requests := requests s; pst := pst s; sent_continue := sent_continue s; will_close := will_close s; cwf := cwf s; connected := connected s; total := total s; obs := obs s; cnt := cnt s; rlock := rlock s; olock := olock s; dlock := dlock s; queue := queue s; qwait := qwait s; qnotified := qnotified s; nxt := nxt s; arrivals := arrivals s; starts := starts s; execs := execs s; wire := wire s; produced := produced s; discarded := discarded s; units := units s; infl := i; wsc := wsc s |}.
-Definition set_prod (s : shared) p u := {| requests := requests s; pst := pst s; sent_continue := sent_continue s; will_close := will_close s; cwf := cwf s; connected := connected s; total := total s; obs := obs s; cnt := cnt s; rlock := rlock s; olock := olock s; dlock := dlock s; queue := queue s; qwait := qwait s; qnotified := qnotified s; nxt := nxt s; arrivals := arrivals s; starts := starts s; execs := execs s; wire := wire s; produced := p; discarded := discarded s; units := u; infl := infl s; wsc := wsc s |}.
-Definition set_discarded (s : shared) v := {| requests := requests s; pst := pst s; sent_continue := sent_continue s; will_close := will_close s; cwf := cwf s; connected := connected s; total := total s; obs := obs s; cnt := cnt s; rlock := rlock s; olock := olock s; dlock := dlock s; queue := queue s; qwait := qwait s; qnotified := qnotified s; nxt := nxt s; arrivals := arrivals s; starts := starts s; execs := execs s; wire := wire s; produced := produced s; discarded := v; units := units s; infl := infl s; wsc := wsc s |}.
-Definition set_wsc (s : shared) v := {| requests := requests s; pst := pst s; sent_continue := sent_continue s; will_close := will_close s; cwf := cwf s; connected := connected s; total := total s; obs := obs s; cnt := cnt s; rlock := rlock s; olock := olock s; dlock := dlock s; queue := queue s; qwait := qwait s; qnotified := qnotified s; nxt := nxt s; arrivals := arrivals s; starts := starts s; execs := execs s; wire := wire s; produced := produced s; discarded := discarded s; units := units s; infl := infl s; wsc := v |}.
+Definition set_requests (s : shared) v := {| requests := v; pst := pst s; sent_continue := sent_continue s; will_close := will_close s; cwf := cwf s; connected := connected s; total := total s; obs := obs s; cnt := cnt s; rlock := rlock s; olock := olock s; dlock := dlock s; queue := queue s; qwait := qwait s; qnotified := qnotified s; nxt := nxt s; arrivals := arrivals s; starts := starts s; execs := execs s; wire := wire s; produced := produced s; discarded := discarded s; units := units s; infl := infl s; wsc := wsc s; closing := closing s; popped := popped s |}.
+Definition set_pst (s : shared) v := {| requests := requests s; pst := v; sent_continue := sent_continue s; will_close := will_close s; cwf := cwf s; connected := connected s; total := total s; obs := obs s; cnt := cnt s; rlock := rlock s; olock := olock s; dlock := dlock s; queue := queue s; qwait := qwait s; qnotified := qnotified s; nxt := nxt s; arrivals := arrivals s; starts := starts s; execs := execs s; wire := wire s; produced := produced s; discarded := discarded s; units := units s; infl := infl s; wsc := wsc s; closing := closing s; popped := popped s |}.
+Definition set_sent_continue (s : shared) v := {| requests := requests s; pst := pst s; sent_continue := v; will_close := will_close s; cwf := cwf s; connected := connected s; total := total s; obs := obs s; cnt := cnt s; rlock := rlock s; olock := olock s; dlock := dlock s; queue := queue s; qwait := qwait s; qnotified := qnotified s; nxt := nxt s; arrivals := arrivals s; starts := starts s; execs := execs s; wire := wire s; produced := produced s; discarded := discarded s; units := units s; infl := infl s; wsc := wsc s; closing := closing s; popped := popped s |}.
+Definition set_will_close (s : shared) v := {| requests := requests s; pst := pst s; sent_continue := sent_continue s; will_close := v; cwf := cwf s; connected := connected s; total := total s; obs := obs s; cnt := cnt s; rlock := rlock s; olock := olock s; dlock := dlock s; queue := queue s; qwait := qwait s; qnotified := qnotified s; nxt := nxt s; arrivals := arrivals s; starts := starts s; execs := execs s; wire := wire s; produced := produced s; discarded := discarded s; units := units s; infl := infl s; wsc := wsc s; closing := closing s; popped := popped s |}.
+Definition set_cwf (s : shared) v := {| requests := requests s; pst := pst s; sent_continue := sent_continue s; will_close := will_close s; cwf := v; connected := connected s; total := total s; obs := obs s; cnt := cnt s; rlock := rlock s; olock := olock s; dlock := dlock s; queue := queue s; qwait := qwait s; qnotified := qnotified s; nxt := nxt s; arrivals := arrivals s; starts := starts s; execs := execs s; wire := wire s; produced := produced s; discarded := discarded s; units := units s; infl := infl s; wsc := wsc s; closing := closing s; popped := popped s |}.
+Definition set_connected (s : shared) v := {| requests := requests s; pst := pst s; sent_continue := sent_continue s; will_close := will_close s; cwf := cwf s; connected := v; total := total s; obs := obs s; cnt := cnt s; rlock := rlock s; olock := olock s; dlock := dlock s; queue := queue s; qwait := qwait s; qnotified := qnotified s; nxt := nxt s; arrivals := arrivals s; starts := starts s; execs := execs s; wire := wire s; produced := produced s; discarded := discarded s; units := units s; infl := infl s; wsc := wsc s; closing := closing s; popped := popped s |}.
+Definition set_total (s : shared) v := {| requests := requests s; pst := pst s; sent_continue := sent_continue s; will_close := will_close s; cwf := cwf s; connected := connected s; total := v; obs := obs s; cnt := cnt s; rlock := rlock s; olock := olock s; dlock := dlock s; queue := queue s; qwait := qwait s; qnotified := qnotified s; nxt := nxt s; arrivals := arrivals s; starts := starts s; execs := execs s; wire := wire s; produced := produced s; discarded := discarded s; units := units s; infl := infl s; wsc := wsc s; closing := closing s; popped := popped s |}.
+Definition set_obs (s : shared) v := {| requests := requests s; pst := pst s; sent_continue := sent_continue s; will_close := will_close s; cwf := cwf s; connected := connected s; total := total s; obs := v; cnt := cnt s; rlock := rlock s; olock := olock s; dlock := dlock s; queue := queue s; qwait := qwait s; qnotified := qnotified s; nxt := nxt s; arrivals := arrivals s; starts := starts s; execs := execs s; wire := wire s; produced := produced s; discarded := discarded s; units := units s; infl := infl s; wsc := wsc s; closing := closing s; popped := popped s |}.
+Definition set_cnt (s : shared) v := {| requests := requests s; pst := pst s; sent_continue := sent_continue s; will_close := will_close s; cwf := cwf s; connected := connected s; total := total s; obs := obs s; cnt := v; rlock := rlock s; olock := olock s; dlock := dlock s; queue := queue s; qwait := qwait s; qnotified := qnotified s; nxt := nxt s; arrivals := arrivals s; starts := starts s; execs := execs s; wire := wire s; produced := produced s; discarded := discarded s; units := units s; infl := infl s; wsc := wsc s; closing := closing s; popped := popped s |}.
+Definition set_rlock (s : shared) v := {| requests := requests s; pst := pst s; sent_continue := sent_continue s; will_close := will_close s; cwf := cwf s; connected := connected s; total := total s; obs := obs s; cnt := cnt s; rlock := v; olock := olock s; dlock := dlock s; queue := queue s; qwait := qwait s; qnotified := qnotified s; nxt := nxt s; arrivals := arrivals s; starts := starts s; execs := execs s; wire := wire s; produced := produced s; discarded := discarded s; units := units s; infl := infl s; wsc := wsc s; closing := closing s; popped := popped s |}.
+Definition set_olock (s : shared) v := {| requests := requests s; pst := pst s; sent_continue := sent_continue s; will_close := will_close s; cwf := cwf s; connected := connected s; total := total s; obs := obs s; cnt := cnt s; rlock := rlock s; olock := v; dlock := dlock s; queue := queue s; qwait := qwait s; qnotified := qnotified s; nxt := nxt s; arrivals := arrivals s; starts := starts s; execs := execs s; wire := wire s; produced := produced s; discarded := discarded s; units := units s; infl := infl s; wsc := wsc s; closing := closing s; popped := popped s |}.
+Definition set_dlock (s : shared) v := {| requests := requests s; pst := pst s; sent_continue := sent_continue s; will_close := will_close s; cwf := cwf s; connected := connected s; total := total s; obs := obs s; cnt := cnt s; rlock := rlock s; olock := olock s; dlock := v; queue := queue s; qwait := qwait s; qnotified := qnotified s; nxt := nxt s; arrivals := arrivals s; starts := starts s; execs := execs s; wire := wire s; produced := produced s; discarded := discarded s; units := units s; infl := infl s; wsc := wsc s; closing := closing s; popped := popped s |}.
+Definition set_queue (s : shared) v := {| requests := requests s; pst := pst s; sent_continue := sent_continue s; will_close := will_close s; cwf := cwf s; connected := connected s; total := total s; obs := obs s; cnt := cnt s; rlock := rlock s; olock := olock s; dlock := dlock s; queue := v; qwait := qwait s; qnotified := qnotified s; nxt := nxt s; arrivals := arrivals s; starts := starts s; execs := execs s; wire := wire s; produced := produced s; discarded := discarded s; units := units s; infl := infl s; wsc := wsc s; closing := closing s; popped := popped s |}.
+Definition set_qw (s : shared) v n := {| requests := requests s; pst := pst s; sent_continue := sent_continue s; will_close := will_close s; cwf := cwf s; connected := connected s; total := total s; obs := obs s; cnt := cnt s; rlock := rlock s; olock := olock s; dlock := dlock s; queue := queue s; qwait := v; qnotified := n; nxt := nxt s; arrivals := arrivals s; starts := starts s; execs := execs s; wire := wire s; produced := produced s; discarded := discarded s; units := units s; infl := infl s; wsc := wsc s; closing := closing s; popped := popped s |}.
+Definition set_nxt (s : shared) v := {| requests := requests s; pst := pst s; sent_continue := sent_continue s; will_close := will_close s; cwf := cwf s; connected := connected s; total := total s; obs := obs s; cnt := cnt s; rlock := rlock s; olock := olock s; dlock := dlock s; queue := queue s; qwait := qwait s; qnotified := qnotified s; nxt := v; arrivals := arrivals s; starts := starts s; execs := execs s; wire := wire s; produced := produced s; discarded := discarded s; units := units s; infl := infl s; wsc := wsc s; closing := closing s; popped := popped s |}.
+Definition set_arrivals (s : shared) v := {| requests := requests s; pst := pst s; sent_continue := sent_continue s; will_close := will_close s; cwf := cwf s; connected := connected s; total := total s; obs := obs s; cnt := cnt s; rlock := rlock s; olock := olock s; dlock := dlock s; queue := queue s; qwait := qwait s; qnotified := qnotified s; nxt := nxt s; arrivals := v; starts := starts s; execs := execs s; wire := wire s; produced := produced s; discarded := discarded s; units := units s; infl := infl s; wsc := wsc s; closing := closing s; popped := popped s |}.
+Definition set_starts (s : shared) v := {| requests := requests s; pst := pst s; sent_continue := sent_continue s; will_close := will_close s; cwf := cwf s; connected := connected s; total := total s; obs := obs s; cnt := cnt s; rlock := rlock s; olock := olock s; dlock := dlock s; queue := queue s; qwait := qwait s; qnotified := qnotified s; nxt := nxt s; arrivals := arrivals s; starts := v; execs := execs s; wire := wire s; produced := produced s; discarded := discarded s; units := units s; infl := infl s; wsc := wsc s; closing := closing s; popped := popped s |}.
+Definition set_execs (s : shared) v := {| requests := requests s; pst := pst s; sent_continue := sent_continue s; will_close := will_close s; cwf := cwf s; connected := connected s; total := total s; obs := obs s; cnt := cnt s; rlock := rlock s; olock := olock s; dlock := dlock s; queue := queue s; qwait := qwait s; qnotified := qnotified s; nxt := nxt s; arrivals := arrivals s; starts := starts s; execs := v; wire := wire s; produced := produced s; discarded := discarded s; units := units s; infl := infl s; wsc := wsc s; closing := closing s; popped := popped s |}.
+Definition set_wire (s : shared) v i := {| requests := requests s; pst := pst s; sent_continue := sent_continue s; will_close := will_close s; cwf := cwf s; connected := connected s; total := total s; obs := obs s; cnt := cnt s; rlock := rlock s; olock := olock s; dlock := dlock s; queue := queue s; qwait := qwait s; qnotified := qnotified s; nxt := nxt s; arrivals := arrivals s; starts := starts s; execs := execs s; wire := v; produced := produced s; discarded := discarded s; units := units s; infl := i; wsc := wsc s; closing := closing s; popped := popped s |}.
+Definition set_infl (s : shared) i := {| requests := requests s; pst := pst s; sent_continue := sent_continue s; will_close := will_close s; cwf := cwf s; connected := connected s; total := total s; obs := obs s; cnt := cnt s; rlock := rlock s; olock := olock s; dlock := dlock s; queue := queue s; qwait := qwait s; qnotified := qnotified s; nxt := nxt s; arrivals := arrivals s; starts := starts s; execs := execs s; wire := wire s; produced := produced s; discarded := discarded s; units := units s; infl := i; wsc := wsc s; closing := closing s; popped := popped s |}.
+Definition set_prod (s : shared) p u := {| requests := requests s; pst := pst s; sent_continue := sent_continue s; will_close := will_close s; cwf := cwf s; connected := connected s; total := total s; obs := obs s; cnt := cnt s; rlock := rlock s; olock := olock s; dlock := dlock s; queue := queue s; qwait := qwait s; qnotified := qnotified s; nxt := nxt s; arrivals := arrivals s; starts := starts s; execs := execs s; wire := wire s; produced := p; discarded := discarded s; units := u; infl := infl s; wsc := wsc s; closing := closing s; popped := popped s |}.
+Definition set_discarded (s : shared) v := {| requests := requests s; pst := pst s; sent_continue := sent_continue s; will_close := will_close s; cwf := cwf s; connected := connected s; total := total s; obs := obs s; cnt := cnt s; rlock := rlock s; olock := olock s; dlock := dlock s; queue := queue s; qwait := qwait s; qnotified := qnotified s; nxt := nxt s; arrivals := arrivals s; starts := starts s; execs := execs s; wire := wire s; produced := produced s; discarded := v; units := units s; infl := infl s; wsc := wsc s; closing := closing s; popped := popped s |}.
+Definition set_wsc (s : shared) v := {| requests := requests s; pst := pst s; sent_continue := sent_continue s; will_close := will_close s; cwf := cwf s; connected := connected s; total := total s; obs := obs s; cnt := cnt s; rlock := rlock s; olock := olock s; dlock := dlock s; queue := queue s; qwait := qwait s; qnotified := qnotified s; nxt := nxt s; arrivals := arrivals s; starts := starts s; execs := execs s; wire := wire s; produced := produced s; discarded := discarded s; units := units s; infl := infl s; wsc := v; closing := closing s; popped := popped s |}.
+Definition set_closing (s : shared) v := {| requests := requests s; pst := pst s; sent_continue := sent_continue s; will_close := will_close s; cwf := cwf s; connected := connected s; total := total s; obs := obs s; cnt := cnt s; rlock := rlock s; olock := olock s; dlock := dlock s; queue := queue s; qwait := qwait s; qnotified := qnotified s; nxt := nxt s; arrivals := arrivals s; starts := starts s; execs := execs s; wire := wire s; produced := produced s; discarded := discarded s; units := units s; infl := infl s; wsc := wsc s; closing := v; popped := popped s |}.
+Definition set_popped (s : shared) v := {| requests := requests s; pst := pst s; sent_continue := sent_continue s; will_close := will_close s; cwf := cwf s; connected := connected s; total := total s; obs := obs s; cnt := cnt s; rlock := rlock s; olock := olock s; dlock := dlock s; queue := queue s; qwait := qwait s; qnotified := qnotified s; nxt := nxt s; arrivals := arrivals s; starts := starts s; execs := execs s; wire := wire s; produced := produced s; discarded := discarded s; units := units s; infl := infl s; wsc := wsc s; closing := closing s; popped := v |}.
 
 Definition set_ipc (i : iost) v := {| ipc := v; i_r := i_r i; i_w := i_w i; i_ws := i_ws i; i_items := i_items i; i_cur := i_cur i; i_comp := i_comp i |}.
 Definition set_wpc (w : wkst) v := {| wpc := v; w_cur := w_cur w; w_idx := w_idx w; w_off := w_off w; w_close := w_close w |}.
@@ -325,19 +332,20 @@ Definition fl_step (s : shared) (f : flst) (e : env) : option (shared * flres * 
       let f' := {| fpc := if Nat.ltb 0 n then FlGet else FlLen; f_olen := n; f_chunk := f_chunk f;
                    f_n := f_n f; f_tmp := f_tmp f; f_sent := f_sent f |} in
       Some (s, FCont f', [LR AOutbufs])
-  | FlGet =>
-      let f' := {| fpc := FlSend; f_olen := f_olen f; f_chunk := firstn (p_ch P) (hd [] (obs s));
+  | FlGet =>     (* chunk = outbuf.get(self.sendbuf_len): a snapshot of the head of the first buffer *)
+      let f' := {| fpc := FlSend; f_olen := f_olen f; f_chunk := hd [] (obs s);
                    f_n := f_n f; f_tmp := f_tmp f; f_sent := f_sent f |} in
       Some (s, FCont f', [])
-  | FlSend =>
+  | FlSend =>    (* ESend len n: get() returned the first len bytes of the snapshot, send() accepted n of them *)
       match e with
-      | ESend n =>
-          if Nat.leb n (length (f_chunk f)) then
+      | ESend len n =>
+          if (Nat.leb n len && Nat.leb len (length (f_chunk f))
+              && (Nat.ltb 0 len || Nat.eqb (length (f_chunk f)) 0))%bool then
             let s' := set_wire s (wire s ++ firstn n (f_chunk f)) (infl s + n) in
-            if Nat.eqb n 0 then Some (s', FDone (f_sent f), [LSend (length (f_chunk f)) n])
+            if Nat.eqb n 0 then Some (s', FDone (f_sent f), [LSend len n])
             else Some (s', FCont {| fpc := FlSkip; f_olen := f_olen f; f_chunk := f_chunk f; f_n := n;
                                     f_tmp := f_tmp f; f_sent := f_sent f |},
-                       [LSend (length (f_chunk f)) n])
+                       [LSend len n])
           else None
       | _ => None
       end
@@ -536,7 +544,8 @@ Definition io_step (s : shared) (i : iost) (e : env) : option (shared * iost * l
       | HcRel => Some (set_olock s None, goto (IoHc HcConn2 eof), [LRel Ob])
       | HcConn2 => Some (set_connected s false, goto (if eof then IoHrWConn else IoDead), [LW AConnected])
       end
-  | IoDead => None
+  | IoDead =>     (* the channel has left the socket map; the loop goes on polling the trigger *)
+      match e with ESel false false => Some (s, i, [LSelect]) | _ => None end
   end.
 
 (* ---------------------------------------------------------------- workers *)
@@ -617,7 +626,7 @@ Definition wk_step (me : nat) (s : shared) (w : wkst) (e : env) : option (shared
   | WWsRel => Some (set_olock s None, wk_next_write w (S (w_idx w)) (w_off w + wsize w), [LRel Ob])
   (* close branch *)
   | WCbAcq => if free (rlock s) then Some (set_rlock s (Some t), goto WCbCwf, [LAcq Rq]) else None
-  | WCbCwf => Some (set_cwf s true, goto WCbReq, [LW ACwf])
+  | WCbCwf => Some (set_closing (set_cwf s true) true, goto WCbReq, [LW ACwf])
   | WCbReq => Some (s, goto WCbClr, [LR ARequests])
   | WCbClr => Some (set_requests s [], goto WCbRel, [LW ARequests])
   | WCbRel => Some (set_rlock s None, goto WTlConn, [LRel Rq])
@@ -628,7 +637,7 @@ Definition wk_step (me : nat) (s : shared) (w : wkst) (e : env) : option (shared
       else Some (s', goto WKbAcq, [LR ARequests])
   | WKbHw => Some (set_cnt s (match cnt s with CZero => CZero | _ => CHw end), goto WKbAcq, [LR ATotal])
   | WKbAcq => if free (rlock s) then Some (set_rlock s (Some t), goto WKbPop, [LAcq Rq]) else None
-  | WKbPop => Some (set_requests s (tl (requests s)), goto WKbConn, [LR ARequests])
+  | WKbPop => Some (set_popped (set_requests s (tl (requests s))) (popped s ++ firstn 1 (requests s)), goto WKbConn, [LR ARequests])
   | WKbConn => Some (s, goto (if connected s then WKbReq else WKbConn2), [LR AConnected])
   | WKbReq => Some (s, goto (match requests s with [] => WKbConn2 | _ => WKbAt AtAcq end), [LR ARequests])
   | WKbAt a =>
@@ -685,7 +694,7 @@ Definition sh0 : shared := {|
   total := 0%Z; obs := [[]]; cnt := CZero; rlock := None; olock := None; dlock := None;
   queue := 0; qwait := []; qnotified := []; nxt := 0;
   arrivals := []; starts := []; execs := []; wire := []; produced := []; discarded := []; units := [];
-  infl := 0; wsc := false |}.
+  infl := 0; wsc := false; closing := false; popped := [] |}.
 Definition io0 : iost := {| ipc := IoRd1; i_r := false; i_w := false; i_ws := false; i_items := []; i_cur := 0; i_comp := false |}.
 Definition wk0 : wkst := {| wpc := WAcqD; w_cur := 0; w_idx := 0; w_off := 0; w_close := false |}.
 Definition init : state := {| sh := sh0; io := io0; wk := fun _ => wk0 |}.
@@ -776,13 +785,21 @@ Definition once_ok (st : state) : bool :=
 (* C04_one_at_a_time *)
 Definition one_ok (P : params) (st : state) : bool := Nat.leb (owners (p_nw P) (wk st)) 1.
 
-(* C04_one_entry *)
+(* C04_one_entry.  The I/O thread hands the connection over in two steps
+   (requests.append, then add_task for the first request): in between the
+   request is queued on the channel and not yet in the dispatcher. *)
+Definition io_handing (i : iost) : bool :=
+  match ipc i with IoRcLen | IoRcAt AtAcq => true | _ => false end.
+Definition io_in_add_task (i : iost) : bool :=
+  match ipc i with IoRcLen | IoRcAt _ => true | _ => false end.
+Definition nonempty (l : list nat) : bool := match l with [] => false | _ => true end.
+
 Definition entry_ok (P : params) (st : state) : bool :=
   let s := sh st in
   let o := owners (p_nw P) (wk st) in
   (Nat.leb (queue s + o) 1
-   && implb (Nat.eqb (queue s) 1) (match requests s with [] => false | _ => true end)
-   && implb (connected s && (match requests s with [] => false | _ => true end) && Nat.eqb o 0) (Nat.eqb (queue s) 1))%bool.
+   && implb (Nat.eqb (queue s) 1) (nonempty (requests s))
+   && implb (connected s && nonempty (requests s) && Nat.eqb o 0 && negb (io_handing (io st))) (Nat.eqb (queue s) 1))%bool.
 
 (* every worker parked and not notified *)
 Fixpoint all_parked (n : nat) (st : state) : bool :=
@@ -791,7 +808,10 @@ Fixpoint all_parked (n : nat) (st : state) : bool :=
   | S m => ((match wpc (wk st m) with WParked => true | _ => false end)
             && negb (existsb (Nat.eqb m) (qnotified (sh st))) && all_parked m st)%bool
   end.
+(* exactly once: when no worker can move any more, the I/O thread is not in the
+   middle of submitting, and the connection is open and not closing, every
+   request that arrived has been executed *)
 Definition quiescent_ok (P : params) (st : state) : bool :=
   let s := sh st in
-  implb (all_parked (p_nw P) st && connected s && negb (cwf s) && negb (will_close s))
-        ((match requests s with [] => true | _ => false end) && nats_eqb (execs s) (arrivals s))%bool.
+  implb (all_parked (p_nw P) st && negb (io_in_add_task (io st)) && connected s && negb (closing s))
+        (negb (nonempty (requests s)) && nats_eqb (execs s) (arrivals s))%bool.
